@@ -14,7 +14,7 @@ From Soy Require Import Model.Bytes Model.Num Model.Values Model.Outcome Model.A
   Model.Escape Model.Interp Spec.Expr Spec.Cmd Spec.CmdIndep Proofs.ScopeRel Proofs.ScopeProofs Proofs.ScopeSpecProofs
   Proofs.ScopeIndepProofs Proofs.ScopeIndepBridge
   Model.Token Model.Parser Model.Compile Spec.CallNames Proofs.CompilePermProofs Proofs.ScopeNames Proofs.ScopeRegistry
-  Model.RawText Spec.Text Spec.CmdText Proofs.ScopeText Proofs.ScopeCmdLemmas.
+  Model.RawText Spec.Text Spec.CmdText Proofs.ScopeText Proofs.ScopeCmdLemmas Proofs.ScopeNsOnce.
 Open Scope N_scope.
 
 (* ------------------------------------------------------------------ *)
@@ -186,6 +186,26 @@ Theorem template_node_name : forall inlen unq w lf token s n s',
   exists id body ae priv, n = NTemplate (t_pos token) (declared_name (c_ns s') (t_val id)) body ae priv.
 Proof. exact parse_template_name. Qed.
 Print Assumptions template_node_name.
+
+(* tree.namespace is written once: EVERY procedure of the command parser, down to itemList (and so
+   parse.SoyFile), leaves a non-empty namespace as it is; only {namespace} assigns it, only while it is
+   empty, and the node it returns carries the same name *)
+Theorem namespace_written_once : forall inlen lexq unq pexpr efuel fuel unt s,
+  mono s (item_list inlen lexq unq pexpr efuel fuel unt s).
+Proof. exact item_list_ns_once. Qed.
+Print Assumptions namespace_written_once.
+Theorem namespace_tag_sets : forall inlen unq f token s n s',
+  parse_namespace inlen unq f token s = Parser.COk n s' ->
+  exists name ae, n = NNamespace (t_pos token) name ae /\ c_ns s' = name /\ c_ns s = [].
+Proof. exact parse_namespace_sets. Qed.
+Print Assumptions namespace_tag_sets.
+(* hence a {template .x} whose start tag is read under the namespace ns <> "" is named ns.x, whatever its body holds *)
+Theorem template_named_by_file_namespace : forall inlen lexq unq pexpr efuel fuel token s n s',
+  c_ns s <> [] ->
+  parse_template inlen unq (item_list inlen lexq unq pexpr efuel fuel) fuel token s = Parser.COk n s' ->
+  exists id body ae priv, n = NTemplate (t_pos token) (declared_name (c_ns s) (t_val id)) body ae priv /\ c_ns s' = c_ns s.
+Proof. exact ScopeNsOnce.template_named_by_file_namespace. Qed.
+Print Assumptions template_named_by_file_namespace.
 
 (* Bundle.Compile's loop over the files: the lookup of a name finds exactly the templates the
    files declare, and names are unique *)
